@@ -84,6 +84,76 @@ def lmin(c, dialect, t, side):
 
 
 # ------------------------------------------------------------------------------------------
+# first character promised for the text of a node (spec, per reader): may it fuse with a sign printed directly in front?
+#   SQL readers:  `-` + text starting with `-` opens a comment        -> danger = "may start with a minus sign"
+#   OData reader: `-` + text starting with a digit is a signed number -> danger = "may start with a digit"
+# An over-approximation ("may") is sound on both sides: a function promises `not danger(node) => its text does not start with
+# such a character`, and a sign directly in front of a child's text needs `not danger(child)`.
+# ------------------------------------------------------------------------------------------
+def lead_danger(c, dialect):
+    od = dialect.name == "odata"
+    key = "lead_danger_" + ("odata" if od else "sql")
+    if key in c:
+        return c[key]
+    U, PV = c["U"], c["PV"]
+    fld = U.field
+    T, F = z3.BoolVal(True), z3.BoolVal(False)
+    holder = {}
+
+    def body(t):
+        f = holder["f"]
+        out = F
+
+        def sval(k):
+            return PV.s(fld(k, "val", t))
+        if od:
+            for k in ("Integer", "Float"):
+                out = z3.If(U.is_kind(k, t), z3.Not(z3.Or(z3.PrefixOf(z3.StringVal("-"), sval(k)),
+                                                          z3.PrefixOf(z3.StringVal("+"), sval(k)))), out)
+            for k in ("Date", "Time", "DateTime", "GUID"):
+                out = z3.If(U.is_kind(k, t), T, out)
+            for k in ("Attribute", "CollectionLambda"):
+                out = z3.If(U.is_kind(k, t), f(fld(k, "owner", t)), out)
+        else:
+            for k in ("Integer", "Float"):
+                out = z3.If(U.is_kind(k, t), z3.PrefixOf(z3.StringVal("-"), sval(k)), out)
+            out = z3.If(U.is_kind("Duration", t), T, out)          # the sign of a duration is printed in front
+            out = z3.If(U.is_kind("UnaryOp", t), U.is_kind("USub", fld("UnaryOp", "op", t)), out)
+            args = PV.items(fld("Call", "args", t))
+            out = z3.If(U.is_kind("Call", t), z3.If(z3.Length(args) > 0, f(args[0]), F), out)
+        for k in ("BinOp", "Compare", "BoolOp"):
+            out = z3.If(U.is_kind(k, t), f(fld(k, "left", t)), out)
+        return out
+    holder["f"] = DefFun(key, [PV], z3.BoolSort(), body)
+    c[key] = (holder["f"], body)
+    return c[key]
+
+
+def data_lead_safe(c, hole, dialect):
+    """The text of a data hole cannot start with the reader's fusing character: True | z3 Bool | None (undecided)."""
+    if hole.kind != "data":
+        return False
+    info = hole.payload
+    od = dialect.name == "odata"
+    tr = list(info.transforms)
+    if any(t[0] in ("opaque", "py_str") for t in tr):
+        return None
+    try:
+        P = A.Parser(c["facts"].raw["unicode"])
+        bad = P.parse(r"\d[\s\S]*", 0) if od else A.Cat([A.lit("-"), A.anystar()])
+        g = A.Group({"L": _mapped(P, c, info, tr), "BAD": bad})
+        if g.intersect_witness("L", "BAD") is None:
+            return True
+    except Exception:
+        pass
+    if all(t[0] in ("upper", "lower") for t in tr) and info.base_term is not None and info.kind in ("Integer", "Float"):
+        s = info.base_term
+        minus, plus = z3.PrefixOf(z3.StringVal("-"), s), z3.PrefixOf(z3.StringVal("+"), s)
+        return z3.Or(minus, plus) if od else z3.Not(minus)
+    return None
+
+
+# ------------------------------------------------------------------------------------------
 # visit contract
 # ------------------------------------------------------------------------------------------
 def install_visit_contract(c, dkey, frag=None):
@@ -477,6 +547,41 @@ def reader_obligations(c, dkey, path, node, value, alias_term, spec_tree=None, p
                 lv = lmin(c, dialect, hole.payload, s2)
                 goal = z3.And(goal, z3.If(lv > cap, z3.IntVal(cap), lv) >= want)
             out.append(("post.lvl", goal, {"template": text[:200], "side": side, "exposes": cst}))
+    # a sign printed directly in front of a spliced text, and the first character this text itself promises
+    danger, danger_body = lead_danger(c, dialect)
+    od = dialect.name == "odata"
+
+    def lead_safe(hole):
+        if hole.kind == "expr":
+            return z3.Not(danger(hole.payload))
+        r = data_lead_safe(c, hole, dialect)
+        return r if (r is None or z3.is_expr(r)) else z3.BoolVal(bool(r))
+    for hole, ch in rd.get("adj", []):
+        inf = {"template": text[:200], "what": f"`{ch}` directly in front of a spliced text",
+               "needs": "the text does not start with " + ("a digit (`-1` is a signed number)" if od else "`-` (`--` opens a comment)")}
+        goal = lead_safe(hole)
+        if hole.kind == "expr":
+            # one obligation per kind of the child: each failing kind gets its own counterexample
+            rest = z3.BoolVal(True)
+            for k in EXPR_KINDS:
+                out.append(("side.adj", z3.Implies(U.is_kind(k, hole.payload), goal), dict(inf, child_kind=k)))
+                rest = z3.And(rest, z3.Not(U.is_kind(k, hole.payload)))
+            out.append(("side.adj", z3.Implies(rest, goal), dict(inf, child_kind="other")))
+        else:
+            out.append(("side.adj", goal, inf))
+    if promise and rd.get("lead") is not None:
+        kind_, x = rd["lead"]
+        if kind_ == "const":
+            safe = z3.BoolVal(not (x.isdigit() if od else x == "-"))
+        else:
+            safe = lead_safe(x)
+        mine = danger_body(node)
+        inf = {"template": text[:200], "promise": "the text starts with " + ("a digit" if od else "`-`") + " only if the spec says it may"}
+        if safe is None:
+            if not path.entails(mine):
+                out.append(("post.lead", None, inf))
+        else:
+            out.append(("post.lead", z3.Implies(z3.Not(mine), safe), inf))
     # data holes
     for hole, ctx, _ in rd["data"]:
         ok, reason = data_condition(c, hole, ctx, dialect)
